@@ -1,5 +1,6 @@
 import datetime
 import dateutil
+import math
 import numpy
 import pandas
 from typing import Optional, Union, NewType
@@ -128,7 +129,7 @@ class ExcelType:
     def __int__(self):
         try:
             return int(float(self.value))
-        except ValueError:
+        except (ValueError, OverflowError):
             raise xlerrors.ValueExcelError(
                 f'Could not convert {repr(self.value)} to int.')
 
@@ -244,7 +245,10 @@ class Text(ExcelType):
         except ValueError:
             pass
         try:
-            return float(self.value)
+            number = float(self.value)
+            # "nan", "inf" and exponents beyond the double range are text.
+            if math.isfinite(number):
+                return number
         except ValueError:
             pass
         # For arithmetic, boolean text is actually interpreted.
